@@ -2827,6 +2827,12 @@ public:
       // Re-size the locks, and set the size to the stored size
       lt.maybe_resize_locks(new_buckets.size());
       lt.buckets().swap(new_buckets);
+      // The bucket array (and possibly the hashpower and the locks array) was
+      // replaced: bump the resize_counter_ so that operations waiting for the
+      // locks re-compute their buckets, as every other resize does. This is
+      // done before anything below can fail (a stream that throws, a stored
+      // setting that is rejected).
+      lt.bump_resize_counter();
       for (auto &lock : lt.get_current_locks()) {
         lock.elem_counter() = 0;
       }
@@ -2842,10 +2848,6 @@ public:
       is.read(reinterpret_cast<char *>(&mhp), sizeof(size_type));
       lt.minimum_load_factor(mlf);
       lt.maximum_hashpower(mhp);
-      // The bucket array (and possibly the hashpower and the locks array) was
-      // replaced: bump the resize_counter_ so that operations waiting for the
-      // locks re-compute their buckets, as every other resize does.
-      lt.bump_resize_counter();
       return is;
     }
   };
